@@ -583,21 +583,27 @@ func PreprocessDeclarationsPrelude(baseURL string, declarations []pa.Compound, p
 			if prelude == nil {
 				continue
 			}
-			hasNesting := false
-			// Replace & selector by parent.
+			// Replace & selector by parent, in each selector of the list.
 			var declarationPrelude []Token
-			for _, token := range declaration.Prelude {
-				if pa.IsLiteral(token, "&") {
-					hasNesting = true
-					declarationPrelude = append(declarationPrelude, colon, is)
-				} else {
-					declarationPrelude = append(declarationPrelude, token)
+			for i, part := range pa.SplitOnComma(declaration.Prelude) {
+				if i > 0 {
+					declarationPrelude = append(declarationPrelude, pa.NewLiteral(",", pos11))
 				}
-			}
-			if !hasNesting {
-				// No & selector, prepend parent.
-				declarationPrelude = append([]Token{colon, is, pa.NewWhitespace(" ", pos11)},
-					declaration.Prelude...)
+				hasNesting := false
+				var selectorPrelude []Token
+				for _, token := range part {
+					if pa.IsLiteral(token, "&") {
+						hasNesting = true
+						selectorPrelude = append(selectorPrelude, colon, is)
+					} else {
+						selectorPrelude = append(selectorPrelude, token)
+					}
+				}
+				if !hasNesting {
+					// No & selector, prepend parent.
+					selectorPrelude = append([]Token{colon, is, pa.NewWhitespace(" ", pos11)}, selectorPrelude...)
+				}
+				declarationPrelude = append(declarationPrelude, selectorPrelude...)
 			}
 			contents, err := PreprocessDeclarationsPrelude(baseURL, pa.ParseBlocksContents(declaration.Content, false),
 				declarationPrelude)
